@@ -328,7 +328,25 @@ class Gen:
             return self.string() + " " + self.string()  # implicit concatenation
         if k == 25:
             return f"(-{self.r.choice(NUM_LITS[:9])})"
+        if k == 26:
+            return self.twins(d)
         return self.atom()
+
+    def twins(self, d):
+        """Two DIFFERENT expression nodes that one source-like rendering would confuse, side by side in one program:
+        a replacement field `{e}` of an f-string (a FormattedValue, not a stand-alone expression) and the set display
+        `{e}`; `{a, b}` in an f-string (a tuple) and the set of that tuple; a field with the format spec ` b` and the
+        dictionary display `{a: b}`. The specification gives them different `_hash` values (different structures)."""
+        e = self.r.choice([self.ident(), f"{self.ident()}({self.ident()})", f"{self.ident()} + {self.ident()}",
+                           f"{self.ident()}.{self.ident()}", f"{self.ident()}[0]", self.r.choice(NUM_LITS[:4])])
+        a, b = self.ident(), self.ident()
+        return self.r.choice([
+            f"({{{e}}}, f\"{{{e}}}\")",
+            f"(f\"{{{e}}}\", {{{e}}})",
+            f"[{{({a}, {b})}}, f\"{{{a}, {b}}}\"]",
+            f"({{{a}: {b}}}, f\"{{{a}: {b}}}\")",
+            f"{{{e}}}.union(f\"x{{{e}}}y\")",
+        ])
 
     def params(self, d, annotations=True):
         def p(name, default=False):
